@@ -303,6 +303,11 @@ func (pp *piecePool) pickPiece(r *Rng, maxLen int) *piece {
 		case c < 50:
 			cs := stmts[r.Intn(len(stmts))]
 			text, src = stripTrailingSemis(cs.Text), "corpus"
+			if r.Chance(1, 5) && len(text) < 3000 { // difficult leaves: strings holding ';', quotes, comment openers, line breaks
+				if v, ok := leafSubstitute(r, text); ok {
+					text, src = v, "corpus-leaf"
+				}
+			}
 		case c < 72:
 			g := &Gen{r: r}
 			text, src = g.statement(1+r.Intn(3)), "grammar"
